@@ -17,7 +17,7 @@ CHECKS = {
        "the compiled driver. Tie: generators extracted from the real encoder (Encode of unit vectors) must equal the model's.",
   note=TB + " Modelled not verified: that Encode applies this generator column-wise (C03). Jerasure closed form not proved "
        "in general (certificate per explored configuration; all 21,845 Leopard GF8 pairs in the thorough tier). Leopard GF16: "
-       "equality with the Lagrange closed form and C05's reconstructions only (no GF(2^16) field in Lean).",
+       "equality with the Lagrange closed form over the proved field GF65536 (C17gf16_toGF) and C05's reconstructions.",
   design="4/C01"),
  "C02": dict(
   technique="Lean 4 theorem: the modelled reconstruct algorithm equals its specification for every MDS generator (via proved Gaussian elimination)",
@@ -53,8 +53,9 @@ CHECKS = {
        "remaining structural hypothesis (no read-before-write of work rows) decided per configuration; seeded encodes at "
        "sizes straddling the 32 KiB chunk, forced GF16, option sets; Leopard Verify flips.",
   note=TB + " PARTIAL: that the schedule generators emit the Lin-Chung-Han transform is established per explored "
-       "configuration (equality with the closed form), not by a general theorem; GF(2^16) has no field instance in Lean "
-       "(xor-linearity of its product is a hypothesis); SIMD butterflies = reference by C08's execution tie.",
+       "configuration (equality with the closed form), not by a general theorem; xor-linearity of the table product is proved for both fields "
+       "(C04_mulLinearOn_gf8 by kernel evaluation, C04_mulLinearOn_gf16 structurally), so C04_encode_linear_gf8/gf16 carry no "
+       "algebraic hypothesis; SIMD butterflies = reference by C08's execution tie.",
   design="4/C04, 10.2"),
  "C05": dict(
   technique="Lean 4 theorems about the reconstruct schedule interpreter and the error-locator function + exhaustive erasure-set correspondence on small configurations",
@@ -125,7 +126,9 @@ CHECKS = {
        "on small configurations.",
   note=TB + " Leopard GF8 locator cache: the KEY is proved injective on erasure sets (C05_bf8_cacheID_injective on the word-level "
        "bit-field model, tied to errorBitfield8.cacheID by the bfkey ops) and the cached VALUE is a function of the erasure set "
-       "(C05_errLocs_fn); the sync.Map get/put and the sync.Pool work buffers have no Lean theorem: they are decided by the "
+       "(C05_errLocs_fn); C10_leo8_cache: for every history and every schedule of callers on one encoder the map stays sound and "
+       "each caller holds the locator table of its own erasure set. The sync.Pool work buffers are covered by the scratch-"
+       "independence theorems (C04_scratch/C05_scratch) and by the "
        "fresh-vs-long-lived comparison on collision-biased histories (this found and now guards fix f76f5f8). StreamEncoder's "
        "block pool is exercised by C11/C14.",
   design="4/C10"),
@@ -133,7 +136,9 @@ CHECKS = {
   technique="Lean 4 theorem over all schedules of a lock-atomic interleaving model + race-detector stress against a sequential oracle",
   text="Proof: C11_linearizable / C11_matrix / C11_matrix_sound - for every schedule (any interleaving, any number of callers) of "
        "the model in which lookup and insert are atomic (the code holds the RWMutex there), the cache stays sound and each caller "
-       "obtains exactly the answer it would get alone; afterwards sequential calls still get cache-free answers. Tie: harness "
+       "obtains exactly the answer it would get alone; afterwards sequential calls still get cache-free answers. "
+       "C10_leo8_cache: the same for the Leopard GF8 error-locator map (a mutex-guarded Go map keyed by cacheID: key proved to "
+       "determine the erasure set, value proved a function of the key). Tie: harness "
        "built with -race; N in {2,8,48} goroutines x GOMAXPROCS in {1,4,16} share one encoder per codec / one StreamEncoder, "
        "biased so that many miss and insert the same key at once; every answer compared with a sequential fresh-encoder oracle; "
        "readers hash data shards during Encode/Verify; any race report fails the run.",
@@ -197,8 +202,12 @@ CHECKS = {
        "Field (associativity etc. for all operands by xor-linearity + basis cases). Leopard run-time tables: the Lean model's "
        "initLUTs/initFFTSkew/initMul*LUT (GF8 and GF16) are compared entry by entry with the tables dumped from the running "
        "package; for GF8 the model's log/exp/product/nibble tables are kernel-evaluated and proved to tabulate GF(2^8)/0x11D "
-       "under the Cantor map (C17leo_log/exp/mul/mulLog/mul8LUT/field), and the regenerated constants are the published ones.",
-  note=TB + " Leopard tables are tied by executed comparison with the model (complete for GF8 and for GF16 log/exp/skew/walsh; "
+       "under the Cantor map (C17leo_log/exp/mul/mulLog/mul8LUT/field), and the regenerated constants are the published ones. "
+       "For GF16 the model's initLUTs is characterised STRUCTURALLY for every entry (C17gf16_log/exp/mulLog: loop invariants of "
+       "the LFSR, Cantor-doubling and inversion loops; x is primitive modulo 0x1002D by five kernel-evaluated powers; the 16x16 "
+       "Cantor basis is inverted explicitly): log is the discrete logarithm of the Cantor image, exp its inverse, the table "
+       "product is pmul 16 0x1002D under the Cantor map; GF65536 is proved a Field (C17gf16_toGF: ring isomorphism).",
+  note=TB + " Leopard tables are tied to the running package by executed comparison with the model (complete for GF8 and for GF16 log/exp/skew/walsh; "
        "sampled log_m for the 33M-entry GF16 product tables); GF2P8AFFINEQB semantics as in the Intel SDM.",
   design="4/C17"),
 }
